@@ -28,6 +28,12 @@ def jobs(tier, seed):
     js += batches("conduct", scale(tier, 160, 3000), scale(tier, 20, 100), gen="dag", gseed=seed + 2, scheds=2, lazy=[0, 60],
                   p_fail=0.5, P=dict(PR, p_join=0.9, p_intjoin=0.9, p_intjoin_less=0.9, p_delay=0.6, p_retry=0.9, nmax=5,
                                      p_items=0.0), name="retry-at-shared-staged-entry")
+    # one retried task executed several times: on several routes (split) and in several loop passes, the retry count lowered
+    # between passes - anything shared between the executions of a task shows here
+    js += batches("conduct", scale(tier, 80, 2000), scale(tier, 20, 100), gen="loop", gseed=seed + 4, scheds=2, lazy=[0, 50], p_fail=0.5,
+                  P=dict(PR, p_retry=0.8, p_loop_count_changes=0.9, p_join=0.15, p_items=0.05, nmax=5), name="retried-task-in-loops-and-on-routes")
+    js += batches("conduct", scale(tier, 60, 1500), scale(tier, 20, 100), gen="dag", gseed=seed + 5, scheds=2, lazy=[0, 50], p_fail=0.5,
+                  P=dict(PR, p_retry=0.8, p_join=0.1, p_items=0.05, nmin=4, nmax=6), name="retried-task-on-several-routes")
     # branches that arrive at an integer join while it WAITS for its retry (its staged entry exists, so this is outside
     # the zone of finding F1): the re-offer must still carry the retry delay
     js += batches("conduct", 48, 12, gen="rwait", gseed=seed + 3, scheds=scale(tier, 6, 24), lazy=[60, 90, 30, 80, 95, 50], p_fail=0.0,
